@@ -107,13 +107,13 @@ func (p *H264Payloader) Payload(mtu uint16, payload []byte) [][]byte { //nolint:
 			return
 		case naluType == spsNALUType:
 			if !p.DisableStapA {
-				p.spsNalu = nalu
+				p.spsNalu = append([]byte{}, nalu...)
 
 				return
 			}
 		case naluType == ppsNALUType:
 			if !p.DisableStapA {
-				p.ppsNalu = nalu
+				p.ppsNalu = append([]byte{}, nalu...)
 
 				return
 			}
